@@ -146,10 +146,11 @@ def attrOf (v : Val) (a : String) (lenient : Bool := false) : M Val := do
       | "arguments" => return .dict x.arguments
       | "activated" => return .int x.activated
       | "parent_uid" => return (match x.parentUid with | some l => .str l | none => .none)
-      | "context" | "status" | "heads" | "scopes" | "priority" | "child_flow_uids" | "action_uids" | "head_fork_uids"
+      | "context" => return .ref "ctx" (← ctxHolder uid)
+      | "status" | "heads" | "scopes" | "priority" | "child_flow_uids" | "action_uids" | "head_fork_uids"
       | "parent_head_uid" | "status_updated" | "new_instance_started" | "active_heads" => unsupported s!"FlowState.{a}"
       | _ =>
-        match lookupArg a x.context with
+        match lookupArg a (← getCtx uid) with
         | some v => return v
         | none => valueErr s!"no attribute {a}"
   | .ref "action" uid =>
@@ -314,6 +315,11 @@ def evalExpr (c : EvalCtx) : Nat → Expr → M Val
       | "is_bool", [v] => return .bool (match v with | .bool _ => true | _ => false)
       | "is_str", [v] => return .bool (match v with | .str _ => true | _ => false)
       | "is_regex", [v] => return .bool (match v with | .regex _ => true | _ => false)
+      | "type", [v] =>
+        match v with
+        | .none => return .str "NoneType" | .bool _ => return .str "bool" | .int _ => return .str "int" | .flt _ _ => return .str "float"
+        | .str _ => return .str "str" | .list _ => return .str "list" | .set _ => return .str "set"
+        | _ => unsupported "type() of an object"
       | "str", [v] =>
         match pyStr v with
         | some s => return .str s
@@ -358,8 +364,7 @@ def exprFuel : Nat := 64
 
 /-- `eval_expression(expr, _get_eval_context(state, flow_state))` -/
 def evalIn (f : FUid) (e : Expr) : M Val := do
-  let x ← getInstX f
-  evalExpr { flowUid := f, ctx := x.context } exprFuel e
+  evalExpr { flowUid := f, ctx := ← getCtx f } exprFuel e
 
 /-- `eval_expression(expr, {})` (parameter / return-member defaults) -/
 def evalEmpty (e : Expr) : M Val :=
